@@ -17,10 +17,23 @@ DEFAULT = 'DEFAULT'
 RET = 'RET_OK'
 # concrete Python identifiers of the abstract parameter names p1..p4 / the unknown name zz.  They are chosen so that
 # each is a substring of the next one (substring / prefix confusions between parameter names are then visible).
-CONC = {'p1': 'x', 'p2': 'xy', 'p3': 'xyz', 'p4': 'wxyz', 'zz': 'zz', 'na': 'na'}
-ABS = {v: k for k, v in CONC.items()}
-KEYS = [CONC[k] for k in ('p1', 'p2', 'p3', 'p4', 'zz')]
-NAMES = [CONC[k] for k in ('p1', 'p2', 'p3', 'p4')]
+# A second scheme uses names that the library's own call chain uses for ITS parameters (a client's named argument must never
+# be mistaken for one of those).  The scheme is chosen per scenario by a hash of its content.
+SCHEMES = [{'p1': 'x', 'p2': 'xy', 'p3': 'xyz', 'p4': 'wxyz', 'zz': 'zz', 'na': 'na'},
+           {'p1': 'signature', 'p2': 'method', 'p3': 'params', 'p4': 'exclude', 'zz': 'kwargs', 'na': 'na'}]
+CONC, ABS, KEYS, NAMES = {}, {}, [], []
+
+
+def set_scheme(k):
+    CONC.clear()
+    CONC.update(SCHEMES[k])
+    ABS.clear()
+    ABS.update({v: kk for kk, v in CONC.items()})
+    KEYS[:] = [CONC[kk] for kk in ('p1', 'p2', 'p3', 'p4', 'zz')]
+    NAMES[:] = [CONC[kk] for kk in ('p1', 'p2', 'p3', 'p4')]
+
+
+set_scheme(0)
 
 
 def to_concrete(scn):
@@ -183,6 +196,9 @@ def doc_events(methods, pred):
 
 
 def run(ascn, loop):
+    import zlib
+    h = zlib.crc32(json.dumps(ascn, sort_keys=True).encode())
+    set_scheme(h % 2)
     scn = to_concrete(ascn)
     sig, ctx, flavour, inp = scn['sig'], scn['ctx'], scn['flavour'], scn['inp']
     ev = []
@@ -241,7 +257,9 @@ def run(ascn, loop):
                 self._ctx = context
         V.m = m
         if ctx['mode'] == 'view':
-            target.view(V, context='context')
+            # the name under which the view takes the context has nothing to do with the parameters of its methods -
+            # also when a method happens to have a parameter of that very name
+            target.view(V, context=sig[0]['name'] if (sig and (h // 2) % 2) else 'context')
         else:
             target.view(V)
     else:
